@@ -76,7 +76,7 @@ SPEC = streamcheck.StreamSpec(
     n_quick=900, n_thorough=30000,
     nontrivial=nontrivial,
     extra_programs=extra,
-    extra_check=lambda oc, tier, seed: common.pysem_stage(oc, PROP, ['acq'], seed, tier),
+    extra_check=lambda oc, tier, seed: common.pysem_stage(oc, PROP, ['acq', 'facade'], seed, tier, effects=True),
     rule='random build programs with ~35 % measurements, indices read at random points between the mutations (p=0.1 per command), tags from a 3-letter alphabet, registries drawn from all live '
          'circuits (the predicate is evaluated where every listed measurement was created against the circuit it was '
          'added to and all counts are 1), plus an implicitly sequenced stream ending in apply+list for the time-order '
